@@ -89,24 +89,52 @@ func runFailedCommitScenario(path string, seed int64, o fcOpts) (res fcResult) {
 	}
 	defer func() { _ = rtx.Rollback() }()
 	snap := dumpTx(rtx)
+	// A writer that has to remap waits for the open read transaction (documented behaviour): in
+	// this scenario that would be for ever.  Every writer step after this point runs under a
+	// watchdog; if it blocks, the reader is closed, the writer finishes, and the scenario is
+	// abandoned (it did not run as planned; nothing is concluded from it).
+	guarded := func(f func() error) (error, bool) {
+		ch := make(chan error, 1)
+		go func() { ch <- f() }()
+		select {
+		case err := <-ch:
+			return err, true
+		case <-time.After(3 * time.Second):
+			_ = rtx.Rollback()
+			<-ch
+			return nil, false
+		}
+	}
 	// commits that release pages the reader still sees
 	for g := 3; g < 5+rng.Intn(3); g++ {
-		if err := write(g, 1+rng.Intn(3)); err != nil {
+		frac := 1 + rng.Intn(3)
+		err, ran := guarded(func() error { return write(g, frac) })
+		if !ran {
+			res.Err = "a writer had to wait for the reader (remap)"
+			return
+		}
+		if err != nil {
 			res.Err = "overwrite: " + err.Error()
 			return
 		}
 		res.Steps++
 	}
 	// the failing commit: more data than MaxSize allows
-	ferr := db.Update(func(tx *bolt.Tx) error {
-		b := tx.Bucket([]byte("data"))
-		for i := 0; i < 40; i++ {
-			if err := b.Put([]byte(fmt.Sprintf("big-%04d", i)), bytes.Repeat([]byte{'B'}, 200<<10)); err != nil {
-				return err
+	ferr, ran := guarded(func() error {
+		return db.Update(func(tx *bolt.Tx) error {
+			b := tx.Bucket([]byte("data"))
+			for i := 0; i < 40; i++ {
+				if err := b.Put([]byte(fmt.Sprintf("big-%04d", i)), bytes.Repeat([]byte{'B'}, 200<<10)); err != nil {
+					return err
+				}
 			}
-		}
-		return nil
+			return nil
+		})
 	})
+	if !ran {
+		res.Err = "a writer had to wait for the reader (remap)"
+		return
+	}
 	if ferr == nil {
 		res.Err = "the oversized commit did not fail"
 		return
@@ -115,7 +143,13 @@ func runFailedCommitScenario(path string, seed int64, o fcOpts) (res fcResult) {
 	res.Steps++
 	// further commits that need pages
 	for g := 10; g < 14+rng.Intn(4); g++ {
-		if err := write(g, 1+rng.Intn(2)); err != nil {
+		frac := 1 + rng.Intn(2)
+		err, ran := guarded(func() error { return write(g, frac) })
+		if !ran {
+			res.Err = "a writer had to wait for the reader (remap)"
+			return
+		}
+		if err != nil {
 			res.Err = fmt.Sprintf("commit after the failed one: %v", err)
 			return
 		}
